@@ -68,6 +68,9 @@ pub const NAME_PARTS: &[&str] = &[
     // siblings of directory names that sort differently as strings and as paths
     // (a character below '/' after a name that is also a directory: "a/…" vs "a.b", "a b", "a-b")
     "a.b", "a b", "a-b", "e!", "target.old",
+    // a backslash followed by something $'…' would read as an escape sequence, a trailing
+    // backslash, a backslash before a quote
+    "C:\\temp\\new", "o\\101x\\x41", "tr\\", "b\\'q", "u\\u00e9\\cA",
 ];
 
 pub fn body(tag: u32, size: u32) -> Vec<u8> {
